@@ -404,7 +404,7 @@ SPECS['C14'] = dict(
     title='Array value semantics',
     jobs=lambda tier, seed: (model_jobs('h_array', 'C14', (120000, 8000000), vg_cases=4000)(tier, seed)
                              # arrays of more than 2^31 / 2^32 elements (2-4 GiB each; plain build, the oracle is the content)
-                             + [Job('h_array', 'mon', pseed(seed, 'C14', 30), frm, 1, ['mode=huge'], label='huge') for frm in (range(1) if tier == 'quick' else range(6))]),
+                             + [Job('h_array', 'mon', pseed(seed, 'C14', 30), frm, 1, ['mode=huge', 'cpubudget=3000'], label='huge', timeout=3600) for frm in (range(1) if tier == 'quick' else range(6))]),
     require={'any': {'histories': 5000, 'nontrivialCases': 2000, 'zeroLength': 500, 'trackedDtors': 50000}},
     evidence=lambda agg, samples, distinct, tier: cov(
         agg.get('histories', 0), distinct,
